@@ -180,6 +180,6 @@ PROP_CONFIGS = {
 
 # C06: the property itself is only decided by a bounded enumeration; the Verus obligations listed in its evidence are the
 # contracts of the functions `skip` calls (iterators, accessors), not of `skip`
-PROP_LEVEL = {"C06": "model_checking"}
+PROP_LEVEL = {}   # C06 was bounded-only (model_checking) until the Verus proof of `skip`
 
 ALL_PROPS = ["C%02d" % i for i in range(1, 21)]
